@@ -661,6 +661,10 @@ class TaskScenario(ScenarioData):
                 self.isRunAway = True
                 return False
 
+        # The booking that completes the task ends the loop before it is recorded above
+        if not forward and first_booked_slot is None and self.doneEffort > previous_effort:
+            first_booked_slot = self.currentSlotIdx
+
         # Set start/end dates based on scheduling direction
         if forward:
             # For forward scheduling: start is at the beginning, end is at current position
